@@ -2,7 +2,6 @@
    float round trip NewAmount(Amount(a).ToBCH()) = a for every |a| <= 2.1e15. *)
 From Coq Require Import ZArith Reals Lia Lra Bool List.
 From Flocq Require Import Core IEEE754.BinarySingleNaN Relative.
-From Interval Require Import Tactic.
 From BU Require Import Lib.Bytes Gen.Xbchutil Amount.Amount Amount.RoundProofs.
 Open Scope R_scope.
 
@@ -42,17 +41,20 @@ Qed.
 (* ---------- math.Pow10 on 0..22 is exact ---------- *)
 Definition sf_is_int (sf : SpecFloat.spec_float) (z : Z) : bool :=
   match sf with
-  | SpecFloat.S754_finite s m e => (0 <=? e)%Z && (cond_Zopp s (Z.pos m) * 2 ^ e =? z)%Z
+  | SpecFloat.S754_finite s m e =>
+      if (0 <=? e)%Z then (cond_Zopp s (Z.pos m) * 2 ^ e =? z)%Z
+      else (cond_Zopp s (Z.pos m) =? z * 2 ^ (- e))%Z
   | _ => false
   end.
 
 Lemma sf_is_int_sound (f : float) z : sf_is_int (B2SF f) z = true -> B2R f = IZR z /\ is_finite f = true.
 Proof.
   destruct f as [s|s| |s m e Hb]; simpl; try discriminate.
-  intros H. apply andb_true_iff in H. destruct H as [He Hz].
-  apply Z.leb_le in He. apply Z.eqb_eq in Hz. split; [|reflexivity].
-  rewrite <- Hz, mult_IZR. unfold F2R. simpl Fnum; simpl Fexp.
-  f_equal. rewrite <- IZR_Zpower by assumption. reflexivity.
+  intros H. split; [|reflexivity]. unfold F2R. simpl Fnum; simpl Fexp.
+  destruct (Z.leb_spec 0 e) as [He|He]; apply Z.eqb_eq in H.
+  - rewrite <- H, mult_IZR. f_equal. symmetry. exact (IZR_Zpower radix2 e He).
+  - rewrite H, mult_IZR. change (IZR (2 ^ (- e))) with (IZR (radix2 ^ (- e))). rewrite (IZR_Zpower radix2 (- e)) by lia. rewrite Rmult_assoc, <- bpow_plus.
+    replace (- e + e)%Z with 0%Z by lia. simpl. ring.
 Qed.
 
 Lemma pow10_exact_table :
@@ -115,15 +117,27 @@ Proof.
   intros Hx. destruct (relative_error_N_FLT_ex radix2 (-1074) 53 ltac:(reflexivity) (fun t => negb (Z.even t)) x Hx)
     as [eps [He Hr]].
   exists eps. split; [|exact Hr].
-  replace (bpow radix2 (-53)) with (/2 * bpow radix2 (-53 + 1)); [exact He|].
-  change (bpow radix2 (-53 + 1)) with (bpow radix2 (-52)).
-  rewrite (bpow_plus_1 radix2 (-53)) by idtac. simpl IZR. field.
+  eapply Rle_trans; [exact He|]. simpl. lra.
 Qed.
 
 Lemma RN_0 : RN 0 = 0.
 Proof. apply round_0. auto with typeclass_instances. Qed.
 
-(* the real-number core of the round trip *)
+Lemma abs_mul_le x e c u : Rabs x <= c -> Rabs e <= u -> Rabs (x * e) <= c * u.
+Proof.
+  intros Hx He. rewrite Rabs_mult. apply Rmult_le_compat; auto using Rabs_pos.
+Qed.
+
+Lemma bpow_m53_small : bpow radix2 (-53) <= /9000000000000000.
+Proof. simpl bpow. lra. Qed.
+
+Lemma bpow_m1022_small : bpow radix2 (-1022) <= / 10000000000000000000000.
+Proof.
+  apply Rle_trans with (bpow radix2 (-74)); [apply bpow_le; lia|]. simpl bpow. lra.
+Qed.
+
+(* the real-number core of the round trip: two roundings, each of relative error at most
+   2^-53, move an integer of magnitude at most 2.1e15 by less than 1/2 *)
 Lemma roundtrip_real (a : Z) : (Z.abs a <= 2100000000000000)%Z ->
   Rabs (RN (RN (IZR a / 100000000) * 100000000) - IZR a) < /2.
 Proof.
@@ -132,25 +146,26 @@ Proof.
   - set (A := IZR a).
     assert (HA1 : 1 <= Rabs A) by (unfold A; rewrite <- abs_IZR; apply IZR_le; lia).
     assert (HA2 : Rabs A <= 2100000000000000) by (unfold A; rewrite <- abs_IZR; apply IZR_le; lia).
-    assert (Hsmall : bpow radix2 (-1022) <= /1000000000) by (simpl bpow; interval).
+    pose proof bpow_m1022_small as Hsmall. pose proof bpow_m53_small as Hu.
     destruct (RN_rel (A / 100000000)) as [e1 [He1 Hr1]].
     { unfold Rdiv. rewrite Rabs_mult, (Rabs_pos_eq (/100000000)) by lra.
       apply Rle_trans with (1 * / 100000000); [lra|]. apply Rmult_le_compat_r; lra. }
     rewrite Hr1.
-    assert (Hu : bpow radix2 (-53) <= /9000000000000000) by (simpl bpow; interval).
-    assert (He1' : -/9000000000000000 <= e1 <= /9000000000000000)
-      by (apply Rabs_le_inv; lra).
-    destruct (RN_rel (A / 100000000 * (1 + e1) * 100000000)) as [e2 [He2 Hr2]].
-    { replace (A / 100000000 * (1 + e1) * 100000000) with (A * (1 + e1)) by field.
-      rewrite Rabs_mult. apply Rle_trans with (1 * Rabs (1 + e1)).
+    assert (He1u : Rabs e1 <= /9000000000000000) by lra.
+    assert (He1' : -/9000000000000000 <= e1 <= /9000000000000000) by (apply Rabs_le_inv; lra).
+    replace (A / 100000000 * (1 + e1) * 100000000) with (A * (1 + e1)) by field.
+    pose proof (abs_mul_le A e1 _ _ HA2 He1u) as HAe1.
+    assert (HY : Rabs (A * (1 + e1)) <= 2100000000000000 + 2100000000000000 * / 9000000000000000).
+    { replace (A * (1 + e1)) with (A + A * e1) by ring. eapply Rle_trans; [apply Rabs_triang|]. lra. }
+    destruct (RN_rel (A * (1 + e1))) as [e2 [He2 Hr2]].
+    { rewrite Rabs_mult. apply Rle_trans with (1 * Rabs (1 + e1)).
       - rewrite Rmult_1_l. rewrite Rabs_pos_eq by lra. lra.
       - apply Rmult_le_compat_r; [apply Rabs_pos|lra]. }
     rewrite Hr2.
-    assert (He2' : -/9000000000000000 <= e2 <= /9000000000000000)
-      by (apply Rabs_le_inv; lra).
-    replace (A / 100000000 * (1 + e1) * 100000000 * (1 + e2) - A) with (A * (e1 + e2 + e1 * e2)) by field.
-    apply Rabs_le_inv in HA2.
-    interval.
+    assert (He2u : Rabs e2 <= /9000000000000000) by lra.
+    pose proof (abs_mul_le _ e2 _ _ HY He2u) as HYe2.
+    replace (A * (1 + e1) * (1 + e2) - A) with (A * e1 + A * (1 + e1) * e2) by ring.
+    eapply Rle_lt_trans; [apply Rabs_triang|]. lra.
 Qed.
 
 (* NewAmount(Amount(a).ToBCH()) = a for every whole number of satoshi up to the cap *)
